@@ -96,7 +96,9 @@ var ReplaceNumbersInWords = false
 func GetFingerprint(q string) string {
 	q += " " // need range to run off end of original query
 	prevWord := ""
-	f := make([]byte, len(q)+1)
+	// The fingerprint can be longer than the query, e.g. "in(1)" becomes "in(?+)"
+	// and a space is added behind copied words, so reserve twice its length.
+	f := make([]byte, 2*len(q)+2)
 	fi := 0
 	pr := rune(0) // previous rune
 	s := unknown  // current state
